@@ -1,7 +1,7 @@
 \* pair: one or two projects in one process (the same class names in both), Analysis once or twice per project
 SPECIFICATION Spec
 CONSTANTS
-  Histories <- HistoriesPair
+  Pool = "pair"
   NameRule = "file"
   CopyNode = TRUE
   KeepCR = TRUE
